@@ -44,13 +44,16 @@ Cat(a, b) ==
           THEN SubSeq(a, 1, Len(a) - 1) \o << <<la[1], la[2] + fb[2]>> >> \o SubSeq(b, 2, Len(b))
           ELSE a \o b
 
-RECURSIVE CatAllAcc(_, _, _)
-CatAllAcc(ss, i, acc) == IF i > Len(ss) THEN acc ELSE CatAllAcc(ss, i + 1, Cat(acc, ss[i]))
-CatAll(ss) == CatAllAcc(ss, 1, <<>>)      \* ss: a sequence of Bytes
+\* balanced folds (O(n log n) copying instead of O(n^2) for a 255-row block)
+RECURSIVE CatRange(_, _, _)
+CatRange(ss, lo, hi) == IF lo > hi THEN <<>> ELSE IF lo = hi THEN ss[lo]
+                        ELSE Cat(CatRange(ss, lo, (lo + hi) \div 2), CatRange(ss, (lo + hi) \div 2 + 1, hi))
+CatAll(ss) == CatRange(ss, 1, Len(ss))          \* ss: a sequence of Bytes
 
-RECURSIVE ConcatAcc(_, _, _)
-ConcatAcc(ss, i, acc) == IF i > Len(ss) THEN acc ELSE ConcatAcc(ss, i + 1, acc \o ss[i])
-ConcatAll(ss) == ConcatAcc(ss, 1, <<>>)   \* ss: a sequence of sequences
+RECURSIVE ConcatRange(_, _, _)
+ConcatRange(ss, lo, hi) == IF lo > hi THEN <<>> ELSE IF lo = hi THEN ss[lo]
+                           ELSE ConcatRange(ss, lo, (lo + hi) \div 2) \o ConcatRange(ss, (lo + hi) \div 2 + 1, hi)
+ConcatAll(ss) == ConcatRange(ss, 1, Len(ss))    \* ss: a sequence of sequences
 
 RECURSIVE BLenFrom(_, _)
 BLenFrom(bs, i) == IF i > Len(bs) THEN 0 ELSE bs[i][2] + BLenFrom(bs, i + 1)
@@ -300,6 +303,12 @@ FitsHdr(type, bits) == type \in 0..7 /\ Len(bits) \in 1..64           \* length 
 EncHdr(type, bits) == Join(SegsHdrG(type, bits, HdrGroups(bits)))
 \* a writer may over-estimate the bit length by one and emit one redundant zero group
 EncHdrPadded(type, bits) == Join(SegsHdrG(type, bits, HdrGroups(bits) + 1))
+\* a packfile starts with the magic "PACK" and the 32-bit version 1, then header|object bytes repeated
+PackVersion == 1
+PackMagic == Cat(Ascii("PACK"), BE32(PackVersion))
+ObjTypeCommit == 1
+ObjTypeTable == 2
+ObjTypeBlock == 3
 
 (***************************************************************************)
 (* 13. Storage keys (pkg/objects/persistence.go): key = prefix || hash of  *)
@@ -536,14 +545,18 @@ Dec(kind, bs) ==
     [] kind = "profile" -> DecProfile(bs)
     [] kind = "hdr" -> DecHdr(bs)
 
+\* (TLC passes operator arguments lazily and re-evaluates them inside recursive operators;
+\*  binding the encoding with a quantifier over a singleton set forces it to be computed once.)
 \* Fits(v) => Dec(Enc(v)) = Ok(v)   (hence Enc is injective on fitting values)
-RoundTrips(kind, v) == LET r == Dec(kind, Enc(kind, v)) IN r.ok /\ r.v = v
+RoundTripsVia(kind, v, bs) == LET r == Dec(kind, bs) IN r.ok /\ r.v = v
+RoundTrips(kind, v) == \A bs \in {Enc(kind, v)} : RoundTripsVia(kind, v, bs)
 \* ~Fits(v) => even the careless encoding does not denote v: v is outside the format
-Unrepresentable(kind, v) == LET r == Dec(kind, Enc(kind, v)) IN ~(r.ok /\ r.v = v)
-Theorem(kind, v) == /\ IsBytes(Enc(kind, v))
-                    /\ IF Fits(kind, v) THEN RoundTrips(kind, v) ELSE Unrepresentable(kind, v)
+Unrepresentable(kind, v) == \A bs \in {Enc(kind, v)} : ~RoundTripsVia(kind, v, bs)
+Theorem(kind, v) == \A bs \in {Enc(kind, v)} :
+                      /\ IsBytes(bs)
+                      /\ IF Fits(kind, v) THEN RoundTripsVia(kind, v, bs) ELSE ~RoundTripsVia(kind, v, bs)
 \* the padded header denotes the same value
-HdrTheorem(type, bits) == LET r == DecHdr(EncHdrPadded(type, bits)) IN
-                          FitsHdr(type, bits) => r.ok /\ r.v = <<type, bits>>
+HdrTheorem(type, bits) == \A bs \in {EncHdrPadded(type, bits)} :
+                            LET r == DecHdr(bs) IN FitsHdr(type, bits) => r.ok /\ r.v = <<type, bits>>
 Injective(kind, U) == Cardinality({Enc(kind, v) : v \in U}) = Cardinality(U)
 =============================================================================
